@@ -2,6 +2,7 @@
 from __future__ import annotations
 
 import itertools
+import os
 import warnings
 
 from hypothesis import strategies as st
@@ -111,6 +112,7 @@ def get_case(script, handler_outcomes, final_status, file_backed, msg_id=9, cons
     dss = [svc.simple_ds(PatientName='G%d' % i, PatientID='X' * (i + 1), SOPClassUID=sops[i % 2],
                          SOPInstanceUID='1.2.826.0.1.3680043.9.19.7.%d' % (i + 1)) for i in range(nstore)]
     handled = []
+    archive = {'path': None, 'starts': []}
 
     def on_store(ctx, ds):
         i = len(handled)
@@ -118,11 +120,31 @@ def get_case(script, handler_outcomes, final_status, file_backed, msg_id=9, cons
         o = handler_outcomes[i]
         if o == 'raise':
             raise exceptions.EventHandlingError('scripted')
+        if file_backed and hasattr(ds, 'read') and (i + msg_id) % 3 == 0:
+            # a handler that copies the instance away and closes the file it was given
+            with ds:
+                archive.setdefault('copied', []).append(ds.read())
         return statuses.Status(OUTCOME_STATUS[o], dimsemessages.CStoreRSPMessage)
 
     class Client(applicationentity.ClientAE):
         def on_receive_store(self, ctx, ds):
             return on_store(ctx, ds)
+
+        def get_file(self, context, command_set):
+            if file_backed != 'archive':
+                return applicationentity.ClientAE.get_file(self, context, command_set)
+            # the application keeps everything it retrieves in ONE spool file: each instance starts where the
+            # previous one ended, and that is the start position reported to the library
+            import tempfile
+            if archive['path'] is None:
+                fd_, archive['path'] = tempfile.mkstemp(prefix='vf_c19_')
+                os.close(fd_)
+            fp = open(archive['path'], 'a+b')
+            fp.seek(0, 2)
+            start = fp.tell()
+            archive['starts'].append(start)
+            applicationentity.write_meta(fp, command_set, context.supported_ts)
+            return fp, start
     ae = Client('CLI', [svc.IMPLICIT])
     ae.timeout = 0.01
     ae.add_scu(sopclass.qr_get_scu)
@@ -176,14 +198,20 @@ def get_case(script, handler_outcomes, final_status, file_backed, msg_id=9, cons
                 gen = assoc.get_scu(svc.PATIENT_GET)(svc.simple_ds(PatientID='1', QueryRetrieveLevel='PATIENT'), msg_id)
                 for ctx, item in gen:
                     if hasattr(item, 'read'):
-                        yielded.append(('file', item.read()))
+                        if item.closed:
+                            yielded.append(('file', archive['copied'][len([1 for y in yielded if y[0] == 'file' and y[2]])], True))
+                        else:
+                            yielded.append(('file', item.read(), False))
+                            item.close()
                     else:
-                        yielded.append(('ds', item))
+                        yielded.append(('ds', item, False))
                 calls_at_end = dul.receive_calls
                 timeouts_at_end = dul.timeouts
     except Violation:
         raise
     except Exception as exc:
+        if archive['path'] and os.path.exists(archive['path']):
+            os.unlink(archive['path'])
         raise Violation('%s:get:exception:%s' % (PROP, lib_frame(exc)), 'C-GET user raised %r' % (exc,), case)
     if timeouts_at_end:
         raise Violation('%s:get:reads-past-final' % PROP, 'the C-GET user kept receiving after the final response', case)
@@ -210,7 +238,9 @@ def get_case(script, handler_outcomes, final_status, file_backed, msg_id=9, cons
     if len(yielded) != len(want):
         raise Violation('%s:get:yield-count' % PROP, '%d instances received and handled, %d handed to the caller'
                         % (len(want), len(yielded)), case)
-    for (kind, item), i in zip(yielded, want):
+    if archive['path']:
+        os.unlink(archive['path'])
+    for (kind, item, _closed), i in zip(yielded, want):
         ds = dss[i]
         if file_backed:
             if kind != 'file':
@@ -310,7 +340,7 @@ def run_random(ctx, n):
         st.integers(0, 127).map(lambda x: 2 * x + 1))
     get = st.tuples(st.just('get'), st.lists(st.sampled_from('SSSP'), min_size=0, max_size=8).map(''.join),
                     st.lists(st.sampled_from(['s', 's', 'w', 'f', 'raise']), min_size=8, max_size=8),
-                    st.sampled_from([0x0000, 0xB000, 0xA701, 0xC000, 0xFE00]), st.booleans(), st.integers(0, 65535))
+                    st.sampled_from([0x0000, 0xB000, 0xA701, 0xC000, 0xFE00]), st.sampled_from([False, True, 'archive']), st.integers(0, 65535))
 
     def fn(value):
         if value[0] == 'move':
@@ -329,12 +359,12 @@ def run_random(ctx, n):
 
 def run_get_enum(ctx):
     for script in ('', 'S', 'SP', 'PS', 'SS', 'SPS', 'PSSP', 'SSS', 'PPSPS'):
-        for fb in (False, True):
-            for hos in (['s'] * 8, ['w', 'f', 's', 'raise'] * 2, ['raise'] * 8):
+        for fb in (False, True, 'archive'):
+            for hi, hos in enumerate((['s'] * 8, ['w', 'f', 's', 'raise'] * 2, ['raise'] * 8)):
                 ctx.case(('get', script, fb, hos[0]), script.count('S') >= 2 or 'P' in script,
-                         labels=['get', 'enum', 'file' if fb else 'memory'],
+                         labels=['get', 'enum', ('spool-file' if fb == 'archive' else 'file') if fb else 'memory'],
                          sample={'script': script, 'file_backed': fb, 'handler_outcomes': hos[:script.count('S')]})
-                ctx.check(get_case, script, hos, 0x0000, fb)
+                ctx.check(get_case, script, hos, 0x0000, fb, 9 + hi + len(script))
 
 
 def shard(ctx, job):
@@ -347,7 +377,7 @@ def run(ctx):
     ctx.rule = ('C-MOVE provider: every outcome string over {success, warning, failure} for 0-4 sub-operations '
                 '(exhaustive), sampled for 5-8, the default handler (nothing to move, destination unknown), a destination that never confirms the release, boundary '
                 'message/context ids; 1-3 moves on one association to one destination described by one dict (with and without credentials);  C-GET user: peer scripts interleaving 0-8 C-STORE requests (two SOP classes, '
-                'in-memory and file-backed) with pending C-GET responses, handler outcomes success/warning/failure/'
+                'in-memory, file-backed, and file-backed into one spool file whose get_file reports a non-zero start; handlers that close the file they were given) with pending C-GET responses, handler outcomes success/warning/failure/'
                 'EventHandlingError, final statuses success/warning/failure/cancel; non-trivial = n>=2 with mixed '
                 'outcomes, n=0, or interleaved pending responses')
     ctx.assumptions = ['"performed" accepted as completed == k or completed+failed+warning == k',
